@@ -705,16 +705,24 @@ func init() {
 		fresh := e2sched{E2: e2p{Clients: 2, Type: "counter", Tolerant: true}, Conc: []pact{{Op: "opensync", R: 0, T: "k1", K: "soc"}, {Op: "opensync", R: 1, T: "k1", K: "soc"}}, AtEnd: append([]string{"onedoc"}, end...)}
 		// a caller gives up in the middle of its call (its context is cancelled while the handler works): one such event
 		// per execution, at every decision point at which a call is being served
+		// the other entry points next to a sync of the same key: a REST patch of an existing document, and the client
+		// re-registering (ProcessClient) while it and another client sync
+		docput := pact{Op: "dput", R: 0, K: "a", V: "o", T: "k1|"}
+		patchSync := e2sched{E2: e2p{Clients: 2, Type: "doc", Prefix: "joined", Tolerant: true}, Setup: []pact{docput, {Op: "sync", R: 0}, {Op: "dput", R: 1, K: "c", V: "p", T: "k1|"}},
+			Conc: []pact{{Op: "patch", R: 0, T: "k1", V: `{"a":{"x":1},"b":[1,2]}`}, {Op: "sync", R: 1}, {Op: "seq", R: 0, Sub: []pact{{Op: "dput", R: 0, K: "d", V: "p", T: "k1|"}, {Op: "sync", R: 0}}}},
+			AtEnd: []string{"log", "converge", "snapshots", "nosnapop"}}
+		connectSync := e2sched{E2: e2p{Clients: 2, Type: "counter", Prefix: "joined", Tolerant: true}, Setup: []pact{inc(0), inc(1)},
+			Conc: []pact{{Op: "connect", R: 0}, {Op: "sync", R: 0}, {Op: "sync", R: 1}}, AtEnd: end}
 		giveup2 := same2
 		giveup2.GiveUps = 1
 		giveupFresh := fresh
 		giveupFresh.GiveUps = 1
 		if tier == "quick" {
 			p.BudgetS = 600
-			p.Runs = []Run{schedRun("same-key-2-caller-gives-up-b2", 2, giveup2, 0), schedRun("fresh-key-2-caller-gives-up-b2", 2, giveupFresh, 0), schedRun("same-key-2-b3", 3, same2, 0), schedRun("different-keys-2-b2", 2, diff2, 0), schedRun("fresh-key-2-b3", 3, fresh, 0), schedRun("same-key-3-b2", 2, same3, 0)}
+			p.Runs = []Run{schedRun("same-key-2-caller-gives-up-b2", 2, giveup2, 0), schedRun("fresh-key-2-caller-gives-up-b2", 2, giveupFresh, 0), schedRun("patch-vs-syncs-b2", 2, patchSync, 0), schedRun("connect-vs-syncs-b2", 2, connectSync, 0), schedRun("same-key-2-b3", 3, same2, 0), schedRun("different-keys-2-b2", 2, diff2, 0), schedRun("fresh-key-2-b3", 3, fresh, 0), schedRun("same-key-3-b2", 2, same3, 0)}
 		} else {
 			p.BudgetS = 3400
-			p.Runs = []Run{schedRun("same-key-2-caller-gives-up-b3", 3, giveup2, 0), schedRun("fresh-key-2-caller-gives-up-b3", 3, giveupFresh, 0), schedRun("same-key-2-b4", 4, same2, 0), schedRun("different-keys-2-b3", 3, diff2, 0), schedRun("fresh-key-2-b4", 4, fresh, 0), schedRun("same-key-3-b3", 3, same3, 0)}
+			p.Runs = []Run{schedRun("same-key-2-caller-gives-up-b3", 3, giveup2, 0), schedRun("fresh-key-2-caller-gives-up-b3", 3, giveupFresh, 0), schedRun("patch-vs-syncs-b3", 3, patchSync, 0), schedRun("connect-vs-syncs-b3", 3, connectSync, 0), schedRun("same-key-2-b4", 4, same2, 0), schedRun("different-keys-2-b3", 3, diff2, 0), schedRun("fresh-key-2-b4", 4, fresh, 0), schedRun("same-key-3-b3", 3, same3, 0)}
 		}
 		return p
 	}
